@@ -57,34 +57,35 @@ Record mon := mkMon {
   q_need_header : bool;         (* a feature asked for a restart and no header was sent since *)
   q_expect : option feature;    (* receiver: this feature was legitimately selected and must run next *)
   q_refused : option eclass;    (* receiver: a selection had to be refused, with this error *)
-  q_self_ready : bool           (* some feature's own mask contained Ready *) }.
+  q_self_ready : bool;          (* some feature's own mask contained Ready *)
+  q_recv : bool                 (* the last advertisement was written (receiving side), not read *) }.
 
-Definition mon0 (bits : N) : mon := mkMon [] [] [] 0 bits false None None false.
+Definition mon0 (bits : N) : mon := mkMon [] [] [] 0 bits false None None false false.
 
 Definition upd (fs : list feature) (ws : bool) (q : mon) (e : event) : mon :=
   match e with
   | EOut WHeader =>
-      mkMon [] [] [] (q_nlists q) (q_last q) false (q_expect q) (q_refused q) (q_self_ready q)
+      mkMon [] [] [] (q_nlists q) (q_last q) false (q_expect q) (q_refused q) (q_self_ready q) (q_recv q)
   | EOut (WFeatures st names true) =>
       mkMon names (listed_cache fs st []) (q_negd q) (q_nlists q) (q_last q) (q_need_header q)
-            (q_expect q) (q_refused q) (q_self_ready q)
+            (q_expect q) (q_refused q) (q_self_ready q) true
   | EIn RPFeatures st (mkItem false (PFeatures cs)) =>
       mkMon (adv_names cs) (adv_cache fs st cs []) (q_negd q) (S (q_nlists q)) (q_last q) (q_need_header q)
-            (q_expect q) (q_refused q) (q_self_ready q)
+            (q_expect q) (q_refused q) (q_self_ready q) false
   | EIn RPSelect st it =>
       match selection_space (mkCfg fs false ws false [] None) it with
       | Some sp =>
           match accept (q_cache q) (q_negd q) st sp with
           | Some (_, f) =>
               mkMon (q_adv q) (q_cache q) (q_negd q) (q_nlists q) (q_last q) (q_need_header q)
-                    (Some f) (q_refused q) (q_self_ready q)
+                    (Some f) (q_refused q) (q_self_ready q) (q_recv q)
           | None =>
               mkMon (q_adv q) (q_cache q) (q_negd q) (q_nlists q) (q_last q) (q_need_header q)
-                    (q_expect q) (Some EPolicy) (q_self_ready q)
+                    (q_expect q) (Some EPolicy) (q_self_ready q) (q_recv q)
           end
       | None =>
           mkMon (q_adv q) (q_cache q) (q_negd q) (q_nlists q) (q_last q) (q_need_header q)
-                (q_expect q) (Some EOther) (q_self_ready q)
+                (q_expect q) (Some EOther) (q_self_ready q) (q_recv q)
       end
   | ENeg f st o =>
       mkMon (q_adv q) (q_cache q) (f_space f :: q_negd q) (q_nlists q)
@@ -92,6 +93,7 @@ Definition upd (fs : list feature) (ws : bool) (q : mon) (e : event) : mon :=
             (o_restart o && negb (o_err o))
             None (q_refused q)
             (q_self_ready q || (has (o_mask o) st_Ready && negb (o_err o)))
+            (q_recv q)
   | _ => q
   end.
 
@@ -116,7 +118,7 @@ Definition cached (q : mon) (req : bool) (f : feature) : Prop := In (req, f) (q_
 (* the one exception: the initiator's unconditional STARTTLS attempt on its
    first features list while the connection is not secure *)
 Definition forced (fs : list feature) (q : mon) (f : feature) (st : N) : Prop :=
-  has st st_Received = false /\ find_space ns_StartTLS fs = Some f /\ q_nlists q = 1 /\ has st st_Secure = false.
+  q_recv q = false /\ find_space ns_StartTLS fs = Some f /\ q_nlists q = 1 /\ has st st_Secure = false.
 
 (* "only if the receiving entity advertised it on the current stream (the sole
    exception being ...), only if it is negotiable at all, and at most once per stream" *)
@@ -142,7 +144,7 @@ Definition cl_prerequisites (fs : list feature) (q : mon) (e : event) : Prop :=
 Definition cl_voluntary_first (q : mon) (e : event) : Prop :=
   match e with
   | ENeg f st _ =>
-      has st st_Received = false -> cached q true f ->
+      q_recv q = false -> cached q true f ->
       forall g, In (false, g) (q_cache q) -> cand (q_negd q) st (false, g) = false
   | _ => True
   end.
@@ -185,7 +187,7 @@ Definition cl_advertises (fs : list feature) (q : mon) (e : event) : Prop :=
 Definition cl_refuses (q : mon) (e : event) : Prop :=
   q_refused q = None /\
   match e with
-  | ENeg f st _ => has st st_Received = true -> q_expect q = Some f
+  | ENeg f _ _ => q_recv q = true -> q_expect q = Some f
   | EOut (WElem _ _) | ESwitch _ | EIn RPReply _ _ | EEof RPReply => True   (* done by the running feature itself *)
   | _ => q_expect q = None
   end.
